@@ -52,6 +52,19 @@ pub struct Imp {
     pub dc: DcHeap,
 }
 
+impl std::fmt::Debug for Imp {
+    fn fmt(&self, f: &mut std::fmt::Formatter<'_>) -> std::fmt::Result {
+        f.debug_struct("Imp").field("id", &self.id).field("acc", &self.acc).field("words", &self.words).finish()
+    }
+}
+
+impl std::fmt::Display for Imp {
+    fn fmt(&self, f: &mut std::fmt::Formatter<'_>) -> std::fmt::Result {
+        // honours width / fill / alignment / precision through `pad`
+        f.pad(&format!("imp-{}-{}", self.id, self.acc))
+    }
+}
+
 impl Imp {
     pub fn new(id: u64) -> (Self, Arc<Mutex<Vec<(u32, u64, u64)>>>) {
         let log = alloc::untracked(|| Arc::new(Mutex::new(Vec::with_capacity(16))));
